@@ -3096,9 +3096,10 @@ orc_compiler_avx_register_rules (OrcTarget *target)
 #define REGISTER_RULE_WITH_GENERIC_AND_PAYLOAD(x, y, z) \
   orc_rule_register (rule_set, #x, avx_rule_##y, (void *)z)
 
-  /* AVX */
+  /* These rules, like the constant loader, use 256-bit integer instructions
+   * (vpxor, vpbroadcast*, ...), so they need AVX2 too */
   OrcRuleSet *rule_set = orc_rule_set_new (orc_opcode_set_get ("sys"), target,
-      ORC_TARGET_AVX_AVX);
+      ORC_TARGET_AVX_AVX | ORC_TARGET_AVX_AVX2);
 
   REGISTER_RULE_WITH_GENERIC (loadb, loadX);
   REGISTER_RULE_WITH_GENERIC (loadw, loadX);
